@@ -100,7 +100,7 @@ impl Stringify for Template {
             stringifier.write_str(r#"="#)?;
             stringifier.write_str_name_quoted(&t.name)?;
             let nodes = &t.content;
-            if nodes.len() > 0 {
+            if !is_children_empty(nodes) {
                 stringifier.write_str(r#">"#)?;
                 for node in nodes {
                     node.stringify_write(stringifier)?;
@@ -162,6 +162,8 @@ fn is_children_empty(children: &[Node]) -> bool {
     for n in children {
         match n {
             Node::Comment(..) => {}
+            // text that prints nothing must not decide between `<a></a>` and `<a/>`
+            Node::Text(value) if is_empty_value(value) => {}
             Node::Element(..) | Node::Text(..) | Node::UnknownMetaTag(..) => {
                 return false;
             }
@@ -173,7 +175,14 @@ fn is_children_empty(children: &[Node]) -> bool {
 fn is_empty_value(value: &Value) -> bool {
     match value {
         Value::Static { value, .. } => value.is_empty(),
-        Value::Dynamic { .. } => false,
+        // `{{ '' }}` is printed as an empty static string
+        Value::Dynamic { expression, .. } => {
+            if let Expression::LitStr { value, .. } = &**expression {
+                value.is_empty()
+            } else {
+                false
+            }
+        }
     }
 }
 
